@@ -133,8 +133,8 @@ def build(d, cache=None):
     raise ValueError(cls)
 
 
-ATTRS = ["a", "b", "c", "a_b", "class_", "x1", "_p"]
-SOURCES = {"a": None, "b": None, "c": None, "a_b": "a b", "class_": "class", "x1": "1x", "_p": None}
+ATTRS = ["a", "b", "c", "a_b", "class_", "_1x", "_p"]
+SOURCES = {"a": None, "b": None, "c": None, "a_b": "a b", "class_": "class", "_1x": "1x", "_p": None}
 
 
 class DumpGen:
